@@ -26,6 +26,8 @@ def tasks(ctx):
           # the frequency a channel runs at is the one written to NRx3/NRx4 unless the sweep unit replaces it as documented
           Task("(*audio.square).tickSweep", "(*audio.square).tickSweep", keep=keep_labels({"freq", "shadow", "timer", "idle"})),
           LemmaTask("lemma:lfsr-and-period", ac.lfsr_spec_orbit, ["spec lfsr15/lfsr7 (oracle orbit)", "tickTimer (contract-level period lemma)"])]
+    names = {t.name for t in ts}
+    ts += [t for t in ac.register_semantics_tasks(ctx) if t.name not in names]
     return filter_tasks(ts)
 
 
